@@ -1,0 +1,22 @@
+//go:build verif
+// +build verif
+
+// Package verifc04 forwards to internal/cgen for the /verif C04 harness
+// (generated C computes what the Wuffs source means), which lives in another
+// module and so cannot import an internal package directly. Compiled only with
+// -tags verif.
+package verifc04
+
+import (
+	"github.com/google/wuffs/internal/cgen"
+	t "github.com/google/wuffs/lang/token"
+)
+
+// NoSuchCOperator is cgen's noSuchCOperator.
+const NoSuchCOperator = cgen.VerifNoSuchCOperator
+
+// COpName is cgen's cOpName (the cOpNames table).
+func COpName(x t.ID) string { return cgen.VerifCOpName(x) }
+
+// CTypeName is cgen's cTypeNames[x], "" when absent.
+func CTypeName(x t.ID) string { return cgen.VerifCTypeName(x) }
